@@ -567,11 +567,11 @@ variable {α ρ : Type} [LT α] [DecidableLT α] [Sub α] [Max α]
 theorem iterativeSample_facts {expf : α → α} {nonFinite : α → Bool} {llf : ρ → α} {lib : List (LibRow ρ α)}
     {c : Cfg} {idx : Option (List Nat)} {grow : Nat → Nat → Nat → Nat → Nat} {uus : List (List α)}
     {res : Res ρ α} (h : iterativeSample expf nonFinite llf lib c idx grow uus = .ok res) :
-    c.maxPrior.getD lib.length ≤ lib.length ∧
-    c.initBatch.getD (c.growth * c.req) ≤ c.maxPrior.getD lib.length ∧
-    (evalOrder (c.maxPrior.getD lib.length) idx).length = c.maxPrior.getD lib.length ∧
-    res.evaluated ≤ c.maxPrior.getD lib.length ∧ Tiles res.blocks 0 res.evaluated ∧
-    res.out.evalRows = (evalOrder (c.maxPrior.getD lib.length) idx).take res.evaluated ∧
+    c.budget lib.length ≤ lib.length ∧
+    c.initBatch.getD (c.growth * c.req) ≤ c.budget lib.length ∧
+    (evalOrder (c.budget lib.length) idx).length = c.budget lib.length ∧
+    res.evaluated ≤ c.budget lib.length ∧ Tiles res.blocks 0 res.evaluated ∧
+    res.out.evalRows = (evalOrder (c.budget lib.length) idx).take res.evaluated ∧
     gather (lib.map (fun r => llf r.nonlin)) res.out.evalRows = some res.out.allLls ∧
     (∃ k, uus[k]? = some res.uuLast ∧ res.blocks.length = k + 1) ∧
     res.uuLast.length = res.out.allLls.length ∧
@@ -584,10 +584,9 @@ theorem iterativeSample_facts {expf : α → α} {nonFinite : α → Bool} {llf 
       res.out.lnLike = rep c.nLinear (recs.map (fun r => llf r.nonlin)) := by
   unfold iterativeSample at h
   dsimp only at h
-  split at h
-  · simp at h
-  · rename_i hb
-    split at h
+  have hb : ¬ c.budget lib.length > lib.length := Nat.not_lt.mpr (Nat.min_le_right _ _)
+  by_cases hfirst : True
+  · split at h
     · simp at h
     · rename_i hi
       split at h
@@ -604,9 +603,9 @@ theorem iterativeSample_facts {expf : α → α} {nonFinite : α → Bool} {llf 
             · rename_i out hout
               simp only [Except.ok.injEq] at h
               subst h
-              have hol' : (evalOrder (c.maxPrior.getD lib.length) idx).length = c.maxPrior.getD lib.length := by
+              have hol' : (evalOrder (c.budget lib.length) idx).length = c.budget lib.length := by
                 simpa using hol
-              have hpl : c.maxPrior.getD lib.length ≤ (evRows.map (fun r => llf r.nonlin)).length := by
+              have hpl : c.budget lib.length ≤ (evRows.map (fun r => llf r.nonlin)).length := by
                 rw [List.length_map, gather_length hev, hol']
               obtain ⟨r1, r2, r3, r4, r5, r6, r7, r8⟩ :=
                 loop_spec expf nonFinite c.guard c.req _ _ grow c.maxiter 0 uus 0 _ [] [] lo (by simp)
@@ -623,6 +622,7 @@ theorem iterativeSample_facts {expf : α → α} {nonFinite : α → Bool} {llf 
               · rw [hall]; exact r7
               · rw [hall]; exact r8
               · rw [a1, a3]; exact a4
+  · exact absurd trivial hfirst
 
 end Sample
 end Iter
